@@ -77,11 +77,17 @@ def st_units(families):
 
     def one(e):
         def mk(t):
-            v, cut = t
-            raw = bytes.fromhex(v["raw"])
-            return {"entry": e.name, "cfg": v["cfg"], "buf": (raw if cut is None else raw[: cut % (len(raw) + 1)]).hex()}
+            v, how, k = t
+            raw = bytearray(bytes.fromhex(v["raw"]))
+            if how == "prefix":
+                raw = raw[: k % (len(raw) + 1)]
+            elif how == "first_octet" and raw:
+                raw[0] ^= 0x10 << (k % 4)  # identification / version / type bits: the refusal paths that format their input
+            elif how == "bit_flip" and raw:
+                raw[(k // 8) % len(raw)] ^= 1 << (k % 8)  # e.g. a checksum failure
+            return {"entry": e.name, "cfg": v["cfg"], "buf": bytes(raw).hex()}
 
-        return st.tuples(e.valid(), st.one_of(st.none(), st.none(), st.integers(0, 64))).map(mk)
+        return st.tuples(e.valid(), st.sampled_from(["valid", "valid", "prefix", "first_octet", "bit_flip"]), st.integers(0, 4095)).map(mk)
 
     return st.tuples(*[one(e) for e in entries]).map(list)
 
@@ -110,14 +116,14 @@ def make_check(flags, env_extra=None, label=None):
     return check
 
 
-def env_clauses(prop_id, families, n_quick=6, n_thorough=60):
+def env_clauses(prop_id, families, n_quick=4, n_thorough=60):
     out = []
     for tag, flags, env_extra in (("O", ("-OO",), None), ("W_error", ("-W", "error"), None), ("hashseed", (), {"PYTHONHASHSEED": "424242"}), ("bb", ("-bb",), None),
                                   ("debug_logging", (), {"VERIF_CHILD_LOGGING": "DEBUG"})):
         out.append(Clause(
             id=f"{prop_id}.interpreter_{tag}",
             doc=f"the decoders of {', '.join(families)} run in a child interpreter started with {' '.join(flags) or ('another hash seed (PYTHONHASHSEED=424242; this process runs with 0)' if tag == 'hashseed' else 'logging switched to DEBUG (root and library logger)')} give, "
-                "unit by unit, the outcome, observed fields, reported length, public properties and re-packed octets they give in this process (valid units and prefixes of valid units)",
+                "unit by unit, the outcome, observed fields, reported length, public properties and re-packed octets they give in this process (valid units, prefixes, units with a changed first octet or one flipped bit)",
             strategy=(lambda families=families: st_units(families)), check=make_check(flags, env_extra, tag),
             classify=lambda units: ["has truncated unit"] if any(True for u in units) else [], weight_by_evals=True,
             rule="each (unit, flag set) comparison is one evaluation",
